@@ -43,6 +43,7 @@ func c09WideRun(idx int, r *Result) {
 		opts := defaultOpts()
 		opts.Limits = runtime.CoreLimits{CallStackMaxSize: 100, StackMaxSize: 500, MaxMemorySize: m}
 		opts.PollBudget = 400000
+		opts.Horizon = 40000000 // the step cap of the controlled run has to leave room for the long thorough programs
 		o := RunVM(a, opts)
 		r.Trans(1)
 		r.Outcome("vm:" + o.Class + kindSuffix(o.Kind))
